@@ -100,7 +100,9 @@ class HashesFieldsDetectionItemTransformation(DetectionItemTransformation):
                     f"No valid hash algorithm found in Hashes field. Please use one of the following: {', '.join(self.valid_hash_algos)}"
                 )
 
-            return self._create_new_detection_items(algo_dict)
+            return self._create_new_detection_items(
+                algo_dict, detection_item.value_linking, detection_item.negated
+            )
         else:
             return None
 
@@ -169,27 +171,42 @@ class HashesFieldsDetectionItemTransformation(DetectionItemTransformation):
         """
         return f"{self.field_prefix}{'' if self.drop_algo_prefix else hash_algo}"
 
-    def _create_new_detection_items(self, algo_dict: dict[str, list[str]]) -> SigmaDetection:
+    def _create_new_detection_items(
+        self,
+        algo_dict: dict[str, list[str]],
+        value_linking: type[ConditionAND | ConditionOR] = ConditionOR,
+        negated: bool = False,
+    ) -> SigmaDetection:
         """
         Creates new detection items based on the parsed hash values.
 
         Args:
             algo_dict (dict[str, list[str]]): A dictionary mapping field names to lists of hash values.
+            value_linking: linking of the values of the replaced detection item (AND for the all modifier).
+            negated: the replaced detection item is negated (e.g. neq modifier).
 
         Returns:
             SigmaDetection: A new SigmaDetection object containing the created detection items.
         """
+        # The values of the replaced item are linked with value_linking; grouping them by hash field
+        # keeps this linking inside the new items and between them. A negated item negates the whole
+        # group: not (a or b) = not a and not b, not (a and b) = not a or not b.
+        item_linking = value_linking
+        if negated:
+            item_linking = ConditionAND if value_linking is ConditionOR else ConditionOR
         return SigmaDetection(
             detection_items=[
                 SigmaDetectionItem(
                     field=k if k != "keyword" else None,
                     modifiers=[],
                     value=[SigmaString(x) for x in v],
+                    value_linking=value_linking,
+                    negated=negated,
                 )
                 for k, v in algo_dict.items()
                 if k
             ],
-            item_linking=ConditionOR,
+            item_linking=item_linking,
         )
 
 
